@@ -5,11 +5,12 @@
    state and environment).  Also proved: the reply rules of the three places where the model answers a request.
    "At least one reply" is liveness (a finite trace may end with requests outstanding; the harness checks that those
    fail with StateMachineGone at once).
-   PARTIAL: that every reply is the *truthful* one is decided by the run-time monitor
-   step11 on every implementation trace (exactly one reply per request id; Started / Throttled only for the oldest
-   outstanding request, right after the check-allowed question asked with that request's options and matching its
-   answer; AlreadyRunning only during a check or reboot wait; an on-demand request upgrades the reboot question, and a
-   positive answer is followed by the reboot) and by trace equality with the model, on scripts that inject requests
+   Proved as well: C11_every_reply_is_the_truthful_one (end of file): every model trace is accepted by the monitor step11x
+   (Started / Throttled only for the oldest outstanding request, right after the check-allowed question asked with that
+   request's options and matching its answer; AlreadyRunning only during a check or reboot wait; an on-demand request
+   upgrades the reboot question, a positive answer is followed by the reboot before anything else, and an on-demand
+   request during the wait for the reboot gets the question asked again before the next ping).
+   Model = code by trace equality, on scripts that inject requests
    after arbitrary events (during attempts, reports, installs, progress delivery, reboot waits, pings) and at every
    wait, drop all handles, and end the stream with requests outstanding (which must fail with StateMachineGone at once;
    a request made after the stream is gone must fail too — checked by the harness).  The real select!'s internal
@@ -78,3 +79,49 @@ Example C11a_monitor_rejects :
 Proof. vm_compute. repeat split. Qed.
 
 Print Assumptions C11_no_reply_without_request_and_never_two.
+
+(* ---- truthful replies: the monitor (Model/Monitors.v step11, with the ask-again rule step11x) accepts every trace of the model ----
+   The premises say the script starts with no request in flight and outside any check (the harness starts every case so). *)
+Require Import Verif.Model.Monitors Verif.Proofs.C11Proof.
+
+Theorem C11_every_reply_is_the_truthful_one :
+  forall cfg url cup apps e,
+    e_trace e = [] -> c_inq (e_cs e) = [] -> c_incheck (e_cs e) = false -> c_upg (e_cs e) = false ->
+    accepts step11x {| base11 := init11; askdue11 := false |} (run_case EStart cfg url cup apps e) = true.
+Proof. exact model_accepted_c11. Qed.
+(* the added rule only restricts: the same traces are accepted by step11 alone *)
+Theorem C11_every_reply_is_the_truthful_one_base :
+  forall cfg url cup apps e,
+    e_trace e = [] -> c_inq (e_cs e) = [] -> c_incheck (e_cs e) = false -> c_upg (e_cs e) = false ->
+    accepts step11 init11 (run_case EStart cfg url cup apps e) = true.
+Proof. exact model_accepted_c11_base. Qed.
+
+Section Examples11.
+  Let ask (src : isource) (d : decision) := APolicy (QCheckAllowed [] {| s_last_update := None; s_last_check := None; s_next := None |} {| ps_poll := None; ps_fails := 0%Z; ps_proxied := 0%Z |} src) (PDecision d).
+  Let q0 := {| base11 := init11; askdue11 := false |}.
+  Example C11_monitor_rejects :
+    (* Started although the policy refused *)
+    accepts step11x q0 [ARequest 0 OnDemand; ask OnDemand DThrottled; AReply 0 Started] = false
+    (* the check-allowed question asked with other options than the request's *)
+    /\ accepts step11x q0 [ARequest 0 OnDemand; ask ScheduledTask (DOk params_default); AReply 0 Started] = false
+    (* AlreadyRunning while the machine is waiting *)
+    /\ accepts step11x q0 [ARequest 0 OnDemand; AReply 0 AlreadyRunning] = false
+    (* the reboot is allowed but something else happens first *)
+    /\ accepts step11x q0 [ask ScheduledTask (DOk params_default); AEvent (EvState WaitingForReboot);
+                            APolicy (QRebootAllowed ScheduledTask) (PBool true); ATimer (WFor 1%Z)] = false
+    (* an on-demand request during the wait for the reboot does not upgrade the question *)
+    /\ accepts step11x q0 [ask ScheduledTask (DOk params_default); AEvent (EvState WaitingForReboot);
+                            APolicy (QRebootAllowed ScheduledTask) (PBool false); ARequest 0 OnDemand; AReply 0 AlreadyRunning;
+                            APolicy (QRebootAllowed ScheduledTask) (PBool false)] = false
+    (* the legitimate sequences *)
+    /\ accepts step11x q0 [ARequest 0 OnDemand; ask OnDemand DThrottled; AReply 0 Throttled] = true
+    /\ accepts step11x q0 [ARequest 0 OnDemand; ask OnDemand (DOk params_default); AReply 0 Started;
+                            ARequest 1 ScheduledTask; AReply 1 AlreadyRunning] = true
+    /\ accepts step11x q0 [ask ScheduledTask (DOk params_default); AEvent (EvState WaitingForReboot);
+                            APolicy (QRebootAllowed ScheduledTask) (PBool false); ARequest 0 OnDemand; AReply 0 AlreadyRunning;
+                            APolicy (QRebootAllowed OnDemand) (PBool true); AInstaller IReboot (IRebooted true)] = true.
+  Proof. vm_compute. repeat split. Qed.
+End Examples11.
+
+Print Assumptions C11_every_reply_is_the_truthful_one.
+Print Assumptions C11_every_reply_is_the_truthful_one_base.
